@@ -1,6 +1,7 @@
 /* Fixture playing the role of cJSON.c for the OWN rules and TAB17.
  * bad_<RULE>_* must be reported by <RULE>; everything else must stay silent.
  * EXPECT-FAIL: OWN5 cJSON_Delete
+ * EXPECT-FAIL: DEL1 cJSON_Delete
  * EXPECT-FAIL: OWN6 replace_item_in_object
  * EXPECT-FAIL: OWN7 replace_item_in_object
  * EXPECT-FAIL: TAB17 utf16_literal_to_utf8
